@@ -477,4 +477,317 @@ theorem compileGU_source_cov [DecidableEq K] (registers : List Nat) (l : List (A
   rw [hn, hregs]
   exact idxOf_lt_of_mem (mem_usedModes (List.mem_map.2 ⟨a, ha, rfl⟩) hm)
 
+/-! ### the full affine statement: displacements and means -/
+
+/-- a displacement gate on one mode -/
+def Applied.isD (a : Applied K) : Bool :=
+  match a.g, a.regs with
+  | .D _ _, [_] => true
+  | _, _ => false
+
+/-- the quadrature vector a (possibly daggered) `Dgate` adds: `(2 Re α, 2 Im α)` on its mode -/
+def Applied.dvec (pos : Nat → Nat) (n : Nat) (a : Applied K) : QI n → K :=
+  match a.g, a.regs with
+  | .D ar ai, [m] => fun v =>
+      if v.1.val = pos m then (if v.2 then sgn a.dagger (ai + ai) else sgn a.dagger (ar + ar)) else 0
+  | _, _ => 0
+
+/-- simulator operation of a gate, displacements included -/
+def Applied.gop' (pos : Nat → Nat) (a : Applied K) : SFV.Gauss.GOp K :=
+  match a.g, a.regs with
+  | .D ar ai, [m] => .displace ⟨sgn a.dagger ar, sgn a.dagger ai⟩ (pos m)
+  | _, _ => a.gop pos
+
+/-- the affine action of an applied gate on `(P, t)` (matrix and vector over the quadratures of `n` modes) -/
+def affStep (pos : Nat → Nat) (n : Nat) (st : Matrix (QI n) (QI n) K × (QI n → K)) (a : Applied K) :
+    Matrix (QI n) (QI n) K × (QI n → K) :=
+  if a.isD then (st.1, st.2 + a.dvec pos n)
+  else (rowsMatrix n (a.rows pos) * st.1, rowsMatrix n (a.rows pos) *ᵥ st.2)
+
+def toVec (n : Nat) (r : Nat → K) : QI n → K := fun v => r (xq n v)
+def meanVec (n : Nat) (V : XP K) : QI n → K := fun v => V.mean (toQ v)
+
+theorem toVec_mulE (n : Nat) (E : Mat K) (r : Nat → K) :
+    toVec n (ofCol (mulE (2 * n) E (asCol r))) = toMat n E *ᵥ toVec n r := by
+  funext v
+  simp only [toVec, ofCol, mulE, asCol, Matrix.mulVec, dotProduct, toMat, dot_quad]
+
+/-- a gate with rows is one product with an embedded block whose matrix is the matrix of its rows -/
+theorem applied_E (pos : Nat → Nat) (n : Nat) (a : Applied K) (h : a.hasRows)
+    (hpos : ∀ m ∈ a.regs, pos m < n) (hinj : ∀ m ∈ a.regs, ∀ m' ∈ a.regs, pos m = pos m' → m = m')
+    (acc : Net K) : ∃ E : Mat K,
+      specStepGU pos n acc a.cmd = { S := mulE (2 * n) E acc.S, r := ofCol (mulE (2 * n) E (asCol acc.r)) } ∧
+      toMat n E = rowsMatrix n (a.rows pos) := by
+  obtain ⟨g, regs, d⟩ := a
+  cases g with
+  | R c s =>
+    match regs, h with
+    | [m], _ =>
+      have hm := hpos m (by simp)
+      refine ⟨_, rfl, ?_⟩
+      simp only [List.map_cons, List.map_nil, List.take_succ_cons, List.take_zero, Applied.rows, sgn]
+      rw [← toMat_rowsMat]
+      cases d
+      · exact toMat_congr n (fun i j hi hj => rot_rows n (pos m) hm c s i j hi hj)
+      · exact toMat_congr n (fun i j hi hj => rot_rows n (pos m) hm c (-s) i j hi hj)
+  | S c s ch sh =>
+    match regs, h with
+    | [m], _ =>
+      have hm := hpos m (by simp)
+      refine ⟨_, rfl, ?_⟩
+      simp only [List.map_cons, List.map_nil, List.take_succ_cons, List.take_zero, Applied.rows, sgn]
+      rw [← toMat_rowsMat]
+      cases d
+      · exact toMat_congr n (fun i j hi hj => sq_rows n (pos m) hm c s ch sh i j hi hj)
+      · exact toMat_congr n (fun i j hi hj => sq_rows n (pos m) hm c s ch (-sh) i j hi hj)
+  | BS ct st c s =>
+    match regs, h with
+    | [m, m'], hne =>
+      have hm := hpos m (by simp)
+      have hm' := hpos m' (by simp)
+      have hp : pos m ≠ pos m' := fun e => hne (hinj m (by simp) m' (by simp) e)
+      refine ⟨_, rfl, ?_⟩
+      simp only [List.map_cons, List.map_nil, List.take_succ_cons, List.take_zero, Applied.rows, sgn]
+      rw [← toMat_rowsMat]
+      cases d
+      · exact toMat_congr n (fun i j hi hj => bs_rows n (pos m) (pos m') hm hm' hp ct st c s i j hi hj)
+      · exact toMat_congr n (fun i j hi hj => bs_rows n (pos m) (pos m') hm hm' hp ct (-st) c s i j hi hj)
+  | D _ _ => exact h.elim
+  | S2 _ _ _ _ => exact h.elim
+  | MZ _ _ _ => exact h.elim
+  | sMZ _ _ _ => exact h.elim
+
+theorem hasRows_not_isD (a : Applied K) (h : a.hasRows) : a.isD = false := by
+  obtain ⟨g, regs, d⟩ := a
+  cases g <;> simp only [Applied.hasRows] at h <;> first | exact h.elim | rfl | (simp [Applied.isD])
+
+theorem xq_eq_x (n k : Nat) (hk : k < n) (v : QI n) : xq n v = k ↔ v.1.val = k ∧ v.2 = false := by
+  obtain ⟨⟨i, hi⟩, b⟩ := v
+  cases b <;> simp [xq] <;> omega
+
+theorem xq_eq_p (n k : Nat) (hk : k < n) (v : QI n) : xq n v = k + n ↔ v.1.val = k ∧ v.2 = true := by
+  obtain ⟨⟨i, hi⟩, b⟩ := v
+  cases b <;> simp [xq] <;> omega
+
+/-- one iteration of the specification fold in matrix form, displacements included -/
+theorem applied_step_aff (pos : Nat → Nat) (n : Nat) (a : Applied K) (h : a.hasRows ∨ a.isD = true)
+    (hpos : ∀ m ∈ a.regs, pos m < n) (hinj : ∀ m ∈ a.regs, ∀ m' ∈ a.regs, pos m = pos m' → m = m')
+    (acc : Net K) :
+    (toMat n (specStepGU pos n acc a.cmd).S, toVec n (specStepGU pos n acc a.cmd).r) =
+      affStep pos n (toMat n acc.S, toVec n acc.r) a := by
+  rcases h with h | h
+  · obtain ⟨E, hE, hM⟩ := applied_E pos n a h hpos hinj acc
+    rw [hE]
+    simp only [affStep, hasRows_not_isD a h, Bool.false_eq_true, if_false, toMat_mulE, toVec_mulE, hM]
+  · obtain ⟨g, regs, d⟩ := a
+    cases g with
+    | D ar ai =>
+      match regs, h with
+      | [m], _ =>
+        have hm := hpos m (by simp)
+        simp only [affStep, Applied.isD, if_true, Applied.cmd, Gate.cmd, specStepGU, List.getD_cons_zero,
+          Applied.dvec]
+        refine Prod.ext rfl ?_
+        funext v
+        simp only [toVec, Pi.add_apply, xq_eq_x n (pos m) hm v, xq_eq_p n (pos m) hm v, sgn]
+        obtain ⟨⟨i, hi⟩, b⟩ := v
+        by_cases e : i = pos m <;> cases b <;> cases d <;> simp [e] <;> ring
+    | R _ _ => simp [Applied.isD] at h
+    | S _ _ _ _ => simp [Applied.isD] at h
+    | BS _ _ _ _ => simp [Applied.isD] at h
+    | S2 _ _ _ _ => simp [Applied.isD] at h
+    | MZ _ _ _ => simp [Applied.isD] at h
+    | sMZ _ _ _ => simp [Applied.isD] at h
+
+theorem applied_fold_aff (pos : Nat → Nat) (n : Nat) (l : List (Applied K))
+    (hall : ∀ a ∈ l, (a.hasRows ∨ a.isD = true) ∧ (∀ m ∈ a.regs, pos m < n) ∧
+      (∀ m ∈ a.regs, ∀ m' ∈ a.regs, pos m = pos m' → m = m')) (acc : Net K) :
+    (toMat n ((l.map Applied.cmd).foldl (specStepGU pos n) acc).S,
+      toVec n ((l.map Applied.cmd).foldl (specStepGU pos n) acc).r) =
+      l.foldl (affStep pos n) (toMat n acc.S, toVec n acc.r) := by
+  induction l generalizing acc with
+  | nil => rfl
+  | cons a l ih =>
+    obtain ⟨h1, h2, h3⟩ := hall a (by simp)
+    simp only [List.map_cons, List.foldl_cons]
+    rw [ih (fun b hb => hall b (by simp [hb])), applied_step_aff pos n a h1 h2 h3]
+
+theorem meanVec_linMap (n : Nat) (R : Q → List (Q × K)) (hR : Supported n R) (V : XP K) :
+    meanVec n (linMap R V) = rowsMatrix n R *ᵥ meanVec n V := by
+  funext v
+  have : (linMap R V).mean (toQ v) = lsum (R (toQ v)) V.mean := by
+    obtain ⟨⟨i, hi⟩, b⟩ := v
+    cases b <;> rfl
+  simp only [meanVec, this, Matrix.mulVec, dotProduct, rowsMatrix]
+  exact lsum_eq_sum (n := n) _ (hR v) _
+
+theorem covMatrix_shift (n : Nat) (V : XP K) (k : Nat) (dx dp : K) :
+    covMatrix n (shift V k dx dp) = covMatrix n V := by
+  ext v w
+  obtain ⟨⟨i, hi⟩, b⟩ := v
+  obtain ⟨⟨j, hj⟩, b'⟩ := w
+  cases b <;> cases b' <;> rfl
+
+/-- **the source program on the simulator's specification is the affine map `(P, t)`** obtained by folding the
+documented row matrices and displacement vectors: covariance `P V Pᵀ`, means `P μ + t` -/
+theorem source_aff (pos : Nat → Nat) (n : Nat) (l : List (Applied K))
+    (hall : ∀ a ∈ l, (a.hasRows ∨ a.isD = true) ∧ (∀ m ∈ a.regs, pos m < n))
+    (V0 Vc : XP K) (P0 : Matrix (QI n) (QI n) K) (t0 : QI n → K)
+    (hxx : ∀ i j, Vc.xx i j = Vc.xx j i) (hpp : ∀ i j, Vc.pp i j = Vc.pp j i)
+    (hc : covMatrix n Vc = P0 * covMatrix n V0 * P0ᵀ) (hm : meanVec n Vc = P0 *ᵥ meanVec n V0 + t0) :
+    covMatrix n ((l.map (Applied.gop' pos)).foldl applyXP Vc) =
+        (l.foldl (affStep pos n) (P0, t0)).1 * covMatrix n V0 * ((l.foldl (affStep pos n) (P0, t0)).1)ᵀ ∧
+      meanVec n ((l.map (Applied.gop' pos)).foldl applyXP Vc) =
+        (l.foldl (affStep pos n) (P0, t0)).1 *ᵥ meanVec n V0 + (l.foldl (affStep pos n) (P0, t0)).2 := by
+  induction l generalizing Vc P0 t0 with
+  | nil => exact ⟨hc, hm⟩
+  | cons a l ih =>
+    obtain ⟨h1, h2⟩ := hall a (by simp)
+    simp only [List.map_cons, List.foldl_cons]
+    rcases h1 with h1 | h1
+    · -- a gate with rows
+      have hg : a.gop' pos = a.gop pos := by
+        obtain ⟨g, regs, d⟩ := a
+        cases g <;> simp only [Applied.hasRows] at h1 <;> first | exact h1.elim | rfl
+      rw [hg, applyXP_gop pos a h1]
+      obtain ⟨sxx, spp⟩ := linMap_symm (a.rows pos) Vc hxx hpp
+      have hsup := applied_supported pos n a h1 h2
+      have hstep : affStep pos n (P0, t0) a =
+          (rowsMatrix n (a.rows pos) * P0, rowsMatrix n (a.rows pos) *ᵥ t0) := by
+        simp [affStep, hasRows_not_isD a h1]
+      rw [hstep]
+      refine ih (fun b hb => hall b (by simp [hb])) _ _ _ sxx spp ?_ ?_
+      · rw [covMatrix_linMap n _ hsup Vc hxx hpp, hc]
+        simp only [Matrix.transpose_mul, Matrix.mul_assoc]
+      · rw [meanVec_linMap n _ hsup, hm, Matrix.mulVec_add, Matrix.mulVec_mulVec]
+    · -- a displacement
+      obtain ⟨g, regs, d⟩ := a
+      cases g with
+      | D ar ai =>
+        match regs, h1 with
+        | [m], _ =>
+          simp only [Applied.gop', applyXP]
+          have hstep : affStep pos n (P0, t0) ({ g := .D ar ai, regs := [m], dagger := d } : Applied K) =
+              (P0, t0 + Applied.dvec pos n ({ g := .D ar ai, regs := [m], dagger := d } : Applied K)) := by
+            simp [affStep, Applied.isD]
+          rw [hstep]
+          refine ih (fun b hb => hall b (by simp [hb])) _ _ _ hxx hpp ?_ ?_
+          · rw [covMatrix_shift, hc]
+          · simp only [Applied.dvec]
+            rw [← add_assoc, ← hm]
+            funext v
+            obtain ⟨⟨i, hi⟩, b⟩ := v
+            cases b <;> cases d <;>
+              by_cases e : i = pos m <;> simp [meanVec, shift, XP.mean, toQ, sgn, e]
+      | R _ _ => simp [Applied.isD] at h1
+      | S _ _ _ _ => simp [Applied.isD] at h1
+      | BS _ _ _ _ => simp [Applied.isD] at h1
+      | S2 _ _ _ _ => simp [Applied.isD] at h1
+      | MZ _ _ _ => simp [Applied.isD] at h1
+      | sMZ _ _ _ => simp [Applied.isD] at h1
+
+theorem applied_wf' (a : Applied K) (h : a.hasRows ∨ a.isD = true) : a.cmd.wf := by
+  rcases h with h | h
+  · exact applied_wf a h
+  · obtain ⟨g, regs, d⟩ := a
+    cases g with
+    | D ar ai =>
+      match regs, h with
+      | [m], _ => simp [Applied.cmd, Gate.cmd, GCmd.wf]
+    | R _ _ => simp [Applied.isD] at h
+    | S _ _ _ _ => simp [Applied.isD] at h
+    | BS _ _ _ _ => simp [Applied.isD] at h
+    | S2 _ _ _ _ => simp [Applied.isD] at h
+    | MZ _ _ _ => simp [Applied.isD] at h
+    | sMZ _ _ _ => simp [Applied.isD] at h
+
+/-- **compiled = source on the specification of the Gaussian simulator, displacements included**: the source
+gates (rotations, squeezers, beamsplitters, displacements, any dagger pattern, any index set) transform every
+symmetric Gaussian state `(μ, V)` into `(S_net μ + r_net, S_net V S_netᵀ)` with the emitted matrix and the emitted
+displacement vector -/
+theorem compileGU_source_aff [DecidableEq K] (registers : List Nat) (l : List (Applied K))
+    (hreg : ∀ a ∈ l, ∀ m ∈ a.regs, m ∈ registers) (hok : ∀ a ∈ l, a.hasRows ∨ a.isD = true) (V : XP K)
+    (hxx : ∀ i j, V.xx i j = V.xx j i) (hpp : ∀ i j, V.pp i j = V.pp j i) :
+    covMatrix (compileGU registers (l.map Applied.cmd)).n
+        ((l.map (Applied.gop' fun m => (compileGU registers (l.map Applied.cmd)).regs.idxOf m)).foldl applyXP V) =
+      toMat (compileGU registers (l.map Applied.cmd)).n (compileGU registers (l.map Applied.cmd)).S *
+        covMatrix (compileGU registers (l.map Applied.cmd)).n V *
+        (toMat (compileGU registers (l.map Applied.cmd)).n (compileGU registers (l.map Applied.cmd)).S)ᵀ ∧
+    meanVec (compileGU registers (l.map Applied.cmd)).n
+        ((l.map (Applied.gop' fun m => (compileGU registers (l.map Applied.cmd)).regs.idxOf m)).foldl applyXP V) =
+      toMat (compileGU registers (l.map Applied.cmd)).n (compileGU registers (l.map Applied.cmd)).S *ᵥ
+        meanVec (compileGU registers (l.map Applied.cmd)).n V +
+      toVec (compileGU registers (l.map Applied.cmd)).n (compileGU registers (l.map Applied.cmd)).r := by
+  have hreg' : ∀ c ∈ l.map Applied.cmd, ∀ m ∈ c.regs, m ∈ registers := by
+    intro c hc m hm
+    obtain ⟨a, ha, rfl⟩ := List.mem_map.1 hc
+    exact hreg a ha m hm
+  have hwf : ∀ c ∈ l.map Applied.cmd, c.wf := by
+    intro c hc
+    obtain ⟨a, ha, rfl⟩ := List.mem_map.1 hc
+    exact applied_wf' a (hok a ha)
+  obtain ⟨hregs, hn, hnet⟩ := compileGU_net registers (l.map Applied.cmd) hreg' hwf
+  have hpos : ∀ a ∈ l, ∀ m ∈ a.regs,
+      (compileGU registers (l.map Applied.cmd)).regs.idxOf m < (compileGU registers (l.map Applied.cmd)).n := by
+    intro a ha m hm
+    rw [hn, hregs]
+    exact idxOf_lt_of_mem (mem_usedModes (List.mem_map.2 ⟨a, ha, rfl⟩) hm)
+  have hS : toMat _ (compileGU registers (l.map Applied.cmd)).S = toMat _ (netSpecGU _ _ (l.map Applied.cmd)).S :=
+    toMat_congr _ (fun i j hi _ => hnet.1 i hi j)
+  have hr : toVec (compileGU registers (l.map Applied.cmd)).n (compileGU registers (l.map Applied.cmd)).r =
+      toVec _ (netSpecGU (fun m => (compileGU registers (l.map Applied.cmd)).regs.idxOf m)
+        (compileGU registers (l.map Applied.cmd)).n (l.map Applied.cmd)).r := by
+    funext v
+    exact hnet.2 _ (xq_lt _ v)
+  have hfold := applied_fold_aff (fun m => (compileGU registers (l.map Applied.cmd)).regs.idxOf m)
+    (compileGU registers (l.map Applied.cmd)).n l (fun a ha => ⟨hok a ha, hpos a ha, fun m hm m' _ e => by
+      rw [hregs] at e
+      exact idxOf_inj (mem_usedModes (List.mem_map.2 ⟨a, ha, rfl⟩) hm) e⟩)
+    ({ S := ident, r := fun _ => 0 } : Net K)
+  have h0 : toVec (compileGU registers (l.map Applied.cmd)).n (fun _ => (0 : K)) = 0 := by funext v; rfl
+  simp only [toMat_ident, h0] at hfold
+  have hsrc := source_aff (fun m => (compileGU registers (l.map Applied.cmd)).regs.idxOf m)
+    (compileGU registers (l.map Applied.cmd)).n l (fun a ha => ⟨hok a ha, hpos a ha⟩) V V 1 0 hxx hpp
+    (by simp) (by simp)
+  rw [hS, hr]
+  simp only [netSpecGU]
+  have h1 := congrArg Prod.fst hfold
+  have h2 := congrArg Prod.snd hfold
+  simp only at h1 h2
+  rw [h1, h2]
+  exact hsrc
+
+theorem toXP_symm (st : GS K) (hI : NMInv st) :
+    (∀ i j, (toXP st).xx i j = (toXP st).xx j i) ∧ (∀ i j, (toXP st).pp i j = (toXP st).pp j i) := by
+  have hMs := NMInv.m_symm st hI
+  constructor <;> intro i j <;> simp only [toXP, Vxx, Vpp] <;> rw [hMs i j] <;>
+    by_cases h : i = j <;> simp [h, eq_comm] <;> ring
+
+/-- **compiled = source on the model of the Gaussian back end**: `GaussianModes` (entrywise `nmat/mmat/mean`
+updates, `applyNM`) run on the source gates from any state satisfying its representation invariant ends in the
+state `(S_net μ + r_net, S_net V S_netᵀ)` -/
+theorem compileGU_source_backend [DecidableEq K] (registers : List Nat) (l : List (Applied K))
+    (hreg : ∀ a ∈ l, ∀ m ∈ a.regs, m ∈ registers) (hok : ∀ a ∈ l, a.hasRows ∨ a.isD = true)
+    (hatoms : ∀ a ∈ l, (a.gop' fun m => (compileGU registers (l.map Applied.cmd)).regs.idxOf m).ok)
+    (st : GS K) (hI : NMInv st) :
+    covMatrix (compileGU registers (l.map Applied.cmd)).n (toXP
+        ((l.map (Applied.gop' fun m => (compileGU registers (l.map Applied.cmd)).regs.idxOf m)).foldl applyNM st)) =
+      toMat (compileGU registers (l.map Applied.cmd)).n (compileGU registers (l.map Applied.cmd)).S *
+        covMatrix (compileGU registers (l.map Applied.cmd)).n (toXP st) *
+        (toMat (compileGU registers (l.map Applied.cmd)).n (compileGU registers (l.map Applied.cmd)).S)ᵀ ∧
+    meanVec (compileGU registers (l.map Applied.cmd)).n (toXP
+        ((l.map (Applied.gop' fun m => (compileGU registers (l.map Applied.cmd)).regs.idxOf m)).foldl applyNM st)) =
+      toMat (compileGU registers (l.map Applied.cmd)).n (compileGU registers (l.map Applied.cmd)).S *ᵥ
+        meanVec (compileGU registers (l.map Applied.cmd)).n (toXP st) +
+      toVec (compileGU registers (l.map Applied.cmd)).n (compileGU registers (l.map Applied.cmd)).r := by
+  have hprog := (applyNM_program
+    (l.map (Applied.gop' fun m => (compileGU registers (l.map Applied.cmd)).regs.idxOf m)) st hI
+    (by
+      intro op hop
+      obtain ⟨a, ha, rfl⟩ := List.mem_map.1 hop
+      exact hatoms a ha)).1
+  rw [hprog]
+  obtain ⟨hxx, hpp⟩ := toXP_symm st hI
+  exact compileGU_source_aff registers l hreg hok (toXP st) hxx hpp
+
 end SFV.GC
